@@ -39,6 +39,7 @@ func genDetCase(rt *rapid.T) detCase {
 	} else {
 		o := schemagen.DefaultOpts()
 		o.MinCombs = 12
+		o.MaskForward = true
 		c.Schema = schemagen.Generate(rt, o)
 		c.Layout = schemagen.Layout{Seed: rapid.Uint64().Draw(rt, "layout"), Level: 1}
 	}
